@@ -255,6 +255,10 @@ def part_path(rec, R, kinds, thorough, rng):
     up = "../../../"
     modes = all_modes(4, with_us=False)
     rec.count("modes_without_us", len(modes))
+    # a mode is a multiset of flags: the two c's of the doubled creatable flag need not stand next to each other (cfc == ccf)
+    split_cc = [m.replace("c", "", 1) + "c" for m in modes if m.count("c") == 2 and len(m) >= 3 and not m.endswith("c")]
+    rec.count("modes_with_separated_cc", len(split_cc))
+    modes = modes + split_cc
     if thorough:
         extra = [m for m in all_modes(4, with_us=True) if "u" in m or "s" in m]
         rec.count("modes_with_us", len(extra))
